@@ -25,6 +25,7 @@ import (
 	"golang.org/x/time/rate"
 
 	dht "github.com/anacrolix/dht/v2"
+	"github.com/anacrolix/dht/v2/bep44"
 	"github.com/anacrolix/dht/v2/krpc"
 )
 
@@ -58,6 +59,7 @@ type sev struct {
 	args  krpc.MsgArgs
 	rated bool
 	bl    *blocklist
+	pre   string // a line printed before the event (oracle tables for the model)
 	// dynamic: fill fields from earlier observations just before execution
 	dyn func(st *srvState, e *sev)
 }
@@ -81,6 +83,7 @@ type srvState struct {
 	s        *dht.Server
 	conn     *fakeConn
 	ps       *recPeerStore
+	mem      *bep44.Memory
 	cbMu     sync.Mutex
 	cbs      []string
 	base     int
@@ -155,6 +158,8 @@ func startServer(c *srvCase) *srvState {
 		DefaultWant:      []krpc.Want{krpc.WantNodes, krpc.WantNodes6},
 		Exp:              2 * time.Hour,
 	}
+	st.mem = bep44.NewMemory()
+	cfg.Store = st.mem
 	cfg.Logger = log.NewLogger().FilterLevel(log.Critical)
 	if c.cfg.bl != nil {
 		cfg.IPBlocklist = c.cfg.bl
@@ -238,6 +243,9 @@ func (st *srvState) exec(ei int, e *sev) {
 	if e.dyn != nil {
 		e.dyn(st, e)
 	}
+	if e.pre != "" {
+		emit("%s", e.pre)
+	}
 	preSnap := st.prevSnap
 	prePending := st.s.VerifPending()
 	var lhs string
@@ -276,6 +284,7 @@ func (st *srvState) exec(ei int, e *sev) {
 		st.vclock = st.vclock.Add(e.adv)
 		st.vmu.Unlock()
 		st.s.VerifAge(e.adv)
+		bep44.VerifAge(st.mem, e.adv)
 		lhs = fmt.Sprintf("adv %d", int64(e.adv))
 	case "addnode":
 		lhs = fmt.Sprintf("addnode %s %d %s", hx(e.src.IP), e.src.Port, hx(e.id[:]))
@@ -1011,8 +1020,8 @@ func runServerCase(c *srvCase) {
 	if cfg.budget >= 0 {
 		budget = strconv.Itoa(cfg.budget)
 	}
-	emit("sbegin %d root=%s passive=%d nosec=%d ps=%d cb=%d veto=%s wait=%d secret=%s now=%d bl=%s budget=%s scenario=%s => ok",
-		c.idx, hx(cfg.root[:]), b2i(cfg.passive), b2i(cfg.nosec), b2i(cfg.ps), b2i(cfg.cb), vs, b2i(cfg.wait), hx(secret), st.now().UnixNano(), blString(cfg.bl), budget, cfg.scenario)
+	emit("sbegin %d root=%s passive=%d nosec=%d ps=%d cb=%d veto=%s wait=%d secret=%s now=%d bl=%s budget=%s exp=%d scenario=%s => ok",
+		c.idx, hx(cfg.root[:]), b2i(cfg.passive), b2i(cfg.nosec), b2i(cfg.ps), b2i(cfg.cb), vs, b2i(cfg.wait), hx(secret), st.now().UnixNano(), blString(cfg.bl), budget, int64(2*time.Hour), cfg.scenario)
 	out.Flush()
 	for i := range c.evs {
 		st.exec(i, &c.evs[i])
